@@ -106,6 +106,21 @@ fn u08_width_laws_t4() {
     check_width_laws::<4>();
 }
 
+// width of EVERY single scalar value, in the three std-defined encodings, against char::len_utf8 / len_utf16
+// (complete over all `char`; loops bounded by the 4-byte encoding).  The hydrated text (`text_value`,
+// `hydrate::Text`) splits strings with std's own encode_utf16 / chars, so index arithmetic that mixes the
+// two (splice positions, patch indexes) stays in bounds only if `width` counts the same units (C37).
+#[kani::proof]
+#[kani::unwind(6)]
+fn u08_width_single_scalar() {
+    let c: char = kani::any();
+    let mut buf = [0u8; 4];
+    let s: &str = c.encode_utf8(&mut buf);
+    assert!(TextEncoding::Utf8CodeUnit.width(s) == c.len_utf8());
+    assert!(TextEncoding::UnicodeCodePoint.width(s) == 1);
+    assert!(TextEncoding::Utf16CodeUnit.width(s) == c.len_utf16());
+}
+
 // ---------------------------------------------------------------- backing for assumed environment contracts
 // ChangeHash::try_from(&[u8]) -- ASSUMED in the Verus unit u02 (used by parse::change_hash): Ok exactly for
 // 32-byte slices, bytes copied.  Complete for every length 0..=33 (the function only compares the length to 32).
